@@ -68,6 +68,10 @@ CORPORA = {
     # Write calls, replayed exactly; FramingTTrace folds the model's Write / Close steps over the recorded calls
     "framingt": dict(gen="MCFramingTGen.tla", cfg={"quick": "framingtgen_quick.cfg", "thorough": "framingtgen_thorough.cfg"},
                      family="framingt", trace="FramingTTrace.tla", tracecfg="FramingTTrace.cfg"),
+    # google.api.HttpBody between a REST client and a REST backend on a converting route, sizes around the pooled
+    # buffers' capacity, repeated on one Transcoder, pool recorder (poison on Put) watching
+    "restbody": dict(gen="MCRestBody.tla", cfg={"quick": "restbody_quick.cfg", "thorough": "restbody_thorough.cfg"},
+                     family="restbody", trace="RestBodyTrace.tla", tracecfg="RestBodyTrace.cfg", harness_workers=4),
     "stream_headers": dict(gen="MCStream.tla", cfg={"quick": "stream_headers_quick.cfg", "thorough": "stream_headers_thorough.cfg"},
                            family="stream", trace="StreamTrace.tla", tracecfg="StreamTrace.cfg"),
 }
@@ -76,7 +80,7 @@ CORPORA = {
 # Properties: which corpora decide them and which oracle conjuncts (tags) are theirs.
 # ---------------------------------------------------------------------------
 PROPS = {
-    "C01": dict(corpora=["stream_matrix", "stream_faults", "restbind", "httpbody", "restfield"], prefix="C01."),
+    "C01": dict(corpora=["stream_matrix", "stream_faults", "restbind", "httpbody", "restfield", "restbody"], prefix="C01."),
     "C02": dict(corpora=["stream_matrix", "stream_headers", "timeout"], prefix="C02."),
     "C03": dict(corpora=["stream_matrix", "stream_errors", "stream_faults", "stream_hostile", "httpbody", "suite"], prefix="C03."),
     "C04": dict(corpora=["stream_errors", "stream_hostile", "stream_faults", "stream_reject"], prefix="C04."),
@@ -118,9 +122,9 @@ PROPS = {
                 # proved, the what-if (<= at the unit boundaries) must be refuted
                 apalache=[("GrpcTimeoutEnc.tla", "CInitStrict", "Inv", "ok"), ("GrpcTimeoutEnc.tla", "CInitLoose", "Inv", "violated")]),
     "C13": dict(corpora=["stream_matrix", "stream_reject"], prefix="C13."),
-    "C14": dict(corpora=["conc"], prefix="C14.", design=[("MCPool.tla", "pool_conc2.cfg")],
+    "C14": dict(corpora=["conc", "restbody"], prefix="C14.", design=[("MCPool.tla", "pool_conc2.cfg")],
                 design_thorough=[("MCPool.tla", "pool_conc.cfg")]),
-    "C15": dict(corpora=["history"], prefix="C15.", design=[("MCPool.tla", "pool_seq.cfg")]),
+    "C15": dict(corpora=["history", "restbody"], prefix="C15.", design=[("MCPool.tla", "pool_seq.cfg")]),
     "C16": dict(corpora=["flow", "framingt"], prefix="C16.", design=[("Flow.tla", "flow_ok.cfg"), ("Flow.tla", "flow_cstream_ok.cfg"),
                                                           ("MCFramingW.tla", "framingw_W1_reframe.cfg"),
                                                           ("MCFramingW.tla", "framingw_W3_strip.cfg"),
